@@ -14,7 +14,7 @@ LEVEL = 'model_checking'
 CHUNK = 8
 RULE = ('place of the process start (32 places: run/$/% in setup, before-assert, assert, cleanup; -stdout-from in file / stdin = / env / equals; run text transformer, '
         'run text matcher, run file matcher; the action to check under the command-line, shell, file-interpreter and source-interpreter forms) x duration of the '
-        'child relative to the timeout in force {T-1, T, T+1, never ends, never ends and ignores SIGTERM} x timeout history {default only, set before (T=1, 5), set after, none before, T then none, '
+        'child relative to the timeout in force {T-1, T, T+1, never ends, never ends and ignores SIGTERM, never ends and a second never-ending process in [cleanup]} x timeout history {default only, set before (T=1, 5), set after, none before, T then none, '
         'none then T, set in an earlier phase, T then T2; for the 5 places whose process starts later than the instruction naming it: set between the two (4 histories)}; lifecycle states (running, timed-out, cleanup, ended) x place are the graph; plus a real-process slice '
         '(8 places x {plain sleeper, SIGTERM-ignoring sleeper}); non-trivial = the child outlives the timeout or there is no timeout')
 ASSUMPTIONS = [
@@ -87,7 +87,7 @@ HISTORIES.update({
     '5-then-post-none': ([('setup', 5), ('post', None)], None),
     'none-then-post-5': ([('setup', None), ('post', 5)], 5),
 })
-DURS = ('T-1', 'T', 'T+1', 'inf', 'inf-ignore-term')
+DURS = ('T-1', 'T', 'T+1', 'inf', 'inf-ignore-term', 'inf-and-cleanup-inf')
 
 
 def prepare(tier):
@@ -107,6 +107,8 @@ def cases(tier):
             if 'post' in h and place not in DEFERRED:
                 continue
             for d in DURS:
+                if d == 'inf-and-cleanup-inf' and place.startswith('cleanup-'):
+                    continue  # (the slow cleanup probe would come first and the place would never be reached)
                 yield ('virt', place, h, d)
 
 
@@ -158,7 +160,7 @@ def run(case) -> Result:
     seam.reset()
     text, place_phase, in_force, reported, files = build(place, hist, 'slow')
     T = in_force
-    if dur in ('inf', 'inf-ignore-term'):
+    if dur in ('inf', 'inf-ignore-term', 'inf-and-cleanup-inf'):
         d = INF
     elif T is None:
         d = {'T-1': 59, 'T': 60, 'T+1': 100000}[dur]
@@ -166,6 +168,10 @@ def run(case) -> Result:
         d = {'T-1': T - 1, 'T': T, 'T+1': T + 1}[dur]
     seam.script['slow'] = {'dur': d, 'out': 'slow output\n', 'ignore_term': dur == 'inf-ignore-term'}
     seam.script['atc'] = {'out': 'act out\n'}
+    double = dur == 'inf-and-cleanup-inf'
+    if double:
+        # a second process, in [cleanup], exceeds the timeout too: still HARD_ERROR, sandbox removed, bounded time
+        seam.script['cleanup-probe'] = {'dur': INF, 'out': ''}
     o = cli.run_case(text, files={'src.txt': 'source\n'} if files else None)
     errs = []
     slow = [c for c in seam.calls if c['name'] == 'slow' or (c['shell'] and 'slow' in str(c['args'])) or 'slow' in [os.path.basename(str(a)) for a in (c['args'] if isinstance(c['args'], list) else [])]]
@@ -197,7 +203,7 @@ def run(case) -> Result:
             errs.append('child exceeds the timeout (%s > %s) at %s: expected HARD_ERROR/128, got rc=%s %s' % (d, T, place, o.rc, o.out.strip()))
         else:
             hdr = [l for l in o.err.split('\n') if l.startswith('In [')]
-            if not hdr or hdr[0][4:].split(']')[0] not in reported:
+            if not hdr or hdr[0][4:].split(']')[0] not in (tuple(reported) + (('cleanup',) if double else ())):
                 errs.append('HARD_ERROR reported %s, expected in %s' % (hdr[:1], reported))
         # no forward process after the timed-out one, but cleanup's are started
         if slow:
